@@ -75,7 +75,6 @@ class QueuePushP(PushP):
         return 0
 
 
-@implementer(interfaces.IPullProducer)
 class PullP:
     def __init__(self, drv, proto, n):
         self.drv, self.proto, self.n = drv, proto, n
@@ -104,6 +103,17 @@ class PullP:
 
     def stopProducing(self):
         self.signals.append((self.drv.world.step, "stop"))
+
+
+@implementer(interfaces.IPullProducer)
+class DeclaredPullP(PullP):
+    """a pull producer that declares IPullProducer"""
+
+
+@implementer(interfaces.IProducer)
+class PlainPullP(PullP):
+    """a pull producer that declares IProducer only - which is all that twisted.protocols.basic.FileSender, the
+    standard pull producer, declares"""
 
 
 class PausingFactory(RecFactory):
@@ -202,6 +212,7 @@ class Driver:
         self.unregisters_in_connectionLost = 0
         self.unhashable_tried = 0
         self.pauses_in_made = 0
+        self.plain_pull = 0
 
     def side_of(self, proto):
         return proto.name[0]
@@ -291,7 +302,8 @@ class Driver:
                         self.falsy_producers += int(isinstance(prod, QueuePushP))
                         streaming = True
                     else:
-                        prod = PullP(self, p, rng.randint(1, 6))
+                        prod = (PlainPullP if rng.random() < 0.4 else DeclaredPullP)(self, p, rng.randint(1, 6))
+                        self.plain_pull += int(isinstance(prod, PlainPullP))
                         prod.may_leave_early = rng.random() < 0.25
                         streaming = False
                     self.producers.append(prod)
@@ -563,7 +575,7 @@ def run_case(spec):
             "counters": {"probes": stats["probes"], "producer_pauses": pauses, "producer_resumes": resumes,
                          "producers": len(drv.producers), "pull_producers": sum(q.kind == "pull" for q in drv.producers), "pull_producers_finished": pull_finished,
                          "inbound_pause_calls": drv.inbound_calls, "pauses_inside_dataReceived": drv.pauses_in_data, "cuts": stats["cuts"], "notrans_seen": len(MON.notrans),
-                         "log_errors_seen": len(MON.errors), "producers_that_are_false": drv.falsy_producers, "producers_left_inside_pause": drv.left_on_pause, "pauses_after_connectionLost": drv.late_pauses, "unregisters_in_connectionLost": drv.unregisters_in_connectionLost, "unhashable_producers_tried": drv.unhashable_tried, "pauses_inside_connectionMade": drv.pauses_in_made},
+                         "log_errors_seen": len(MON.errors), "producers_that_are_false": drv.falsy_producers, "producers_left_inside_pause": drv.left_on_pause, "pauses_after_connectionLost": drv.late_pauses, "unregisters_in_connectionLost": drv.unregisters_in_connectionLost, "unhashable_producers_tried": drv.unhashable_tried, "pauses_inside_connectionMade": drv.pauses_in_made, "pull_producers_declaring_IProducer_only": drv.plain_pull},
             "sets": {"logged_errors": sorted({e[0] + ":" + e[3] for e in MON.errors})},
             "sample": {"spec": spec, "buffer_size": r.default_buffer_size,
                        "producers": [(q.proto.name, q.kind, [w for (_, w) in q.signals][:10]) for q in drv.producers][:5],
